@@ -333,10 +333,12 @@ func (cap *commandArgParser) parseEachInput(args redisArgs, input ...respValue) 
 			}
 
 			if pms != PARSE_SINGLE_VALUE {
-				foundMultiple = true
+				// only a repeatable argument may end by failing to match; a single
+				// token of a oneof does not make the arguments after it optional
+				foundMultiple = (pms != PARSE_ONE_OF_TOKEN)
 
 				// check recursively if multiple arguments stop here
-				if apos+1 < len(args) {
+				if foundMultiple && apos+1 < len(args) {
 					rightVals, testLength, subValid := cap.parseEachInput(args[apos+1:], input[ipos:]...)
 					if subValid {
 						ipos += testLength
